@@ -174,6 +174,62 @@ fn cut(t: usize) {
     core::mem::forget(p2);
 }
 
+/// Complete binary tree of depth 2, target 3: the frontier stops in the middle of the second level
+/// (one unexpanded child of the root plus the two children of the other). Owners symbolic, so the
+/// same player may move at both levels: the grandchildren must carry the PRODUCT of the
+/// probabilities along their path in the owner's component.
+#[kani::proof]
+#[kani::unwind(4)]
+fn c06_thread_threshold_cut_two_levels() {
+    let wr = any_player();
+    let wk = any_player();
+    let a = Node::Player(Player { num: wk, infoset: 0, actions: Box::new([Node::Terminal(1.0), Node::Terminal(-1.0)]) as Box<[Node]> });
+    let b = Node::Player(Player { num: wk, infoset: 0, actions: Box::new([Node::Terminal(3.0), Node::Terminal(-3.0)]) as Box<[Node]> });
+    let root = Node::Player(Player { num: wr, infoset: 0, actions: Box::new([a, b]) as Box<[Node]> });
+    let chance: [FullChance<'static>; 0] = [];
+    let st = [q4pos(), q4pos()];
+    let mut p1 = [minfo(st[0])];
+    let mut p2 = [minfo(st[1])];
+    let target = NonZeroUsize::new(3).unwrap();
+    let mut queue: Vec<Task> = Vec::with_capacity(4);
+    let mut work: Vec<Task> = Vec::with_capacity(4);
+    thread_threshold(&root, &chance[..], [&mut p1[..], &mut p2[..]], target, &mut queue, &mut work);
+    let s = [[st[0], 1.0 - st[0]], [st[1], 1.0 - st[1]]];
+    let k1 = kids(&root).unwrap();
+    kani::cover!(queue.len() == 3, "three tasks on two levels");
+    kani::cover!(matches!(wr, PlayerNum::One) && matches!(wk, PlayerNum::One) && queue.len() == 3, "the same player moves at both levels");
+    let mut seen = 0usize;
+    let mut qi = 0;
+    while qi < queue.len() {
+        let (n, pc, pp) = queue[qi];
+        assert!(pc == 1.0, "C06 frontier: chance reach of a task changed without a chance node");
+        let mut found = false;
+        for i in 0..2 {
+            let r1 = step(&root, i, [1.0, 1.0], s);
+            if core::ptr::eq(n, &k1[i]) {
+                found = true;
+                assert!(pp[0] == r1[0] && pp[1] == r1[1], "C06 frontier: task reach is not its path's reach under the current strategies");
+            }
+            let k2 = kids(&k1[i]).unwrap();
+            for j in 0..2 {
+                let r2 = step(&k1[i], j, r1, s);
+                if core::ptr::eq(n, &k2[j]) {
+                    found = true;
+                    assert!(pp[0] == r2[0] && pp[1] == r2[1], "C06 frontier: task reach is not its path's reach under the current strategies");
+                }
+            }
+        }
+        assert!(found, "C06 frontier: task is not a node of the tree");
+        seen += 1;
+        qi += 1;
+    }
+    core::mem::forget(queue);
+    core::mem::forget(work);
+    core::mem::forget(root);
+    core::mem::forget(p1);
+    core::mem::forget(p2);
+}
+
 #[kani::proof]
 #[kani::unwind(3)]
 fn c06_thread_threshold_cut_t1() {
